@@ -323,6 +323,8 @@ let dispatch (f : string array) : string =
   | "spec_normal" -> op_spec_normal f
   | "shape_c06" -> string_of_int (int_of_n (c06_shape (text_of_field_nn f.(1)) (text_of_field_nn f.(2))))
   | "hist" -> op_hist f
+  | "shape_c08" -> string_of_int (int_of_n (c08_shape (text_of_field_nn f.(1)) (text_of_field_nn f.(2)) (text_of_field_nn f.(3))))
+  | "ref_kind" -> (let ((a, b), c) = ref_kind (text_of_field_nn f.(1)) in Printf.sprintf "%d %d %d" (int_of_n a) (int_of_n b) (int_of_n c))
   | "suite" -> suite (int_of_string f.(1))
   | "spec_uri" -> spec_uri f
   | op -> "?unknown-op " ^ op
